@@ -4,7 +4,7 @@ From Coq Require Import List NArith ZArith Bool Arith Lia ZifyBool ZifyNat ZifyN
 From Coq Require Import Sorting.Permutation Sorting.Sorted.
 From Coq Require Import Strings.Byte.
 Require Import CU.model.Prim CU.model.Types CU.model.Unicode CU.model.Codec CU.model.Card CU.model.Dates CU.model.Iso.
-Require Import CU.spec.IsoSpec CU.proofs.NumProofs.
+Require Import CU.spec.IsoSpec CU.proofs.NumProofs CU.proofs.PdsProofs.
 Import ListNotations.
 Open Scope nat_scope.
 
@@ -948,7 +948,8 @@ Proof.
     apply andb_true_iff in Hw. destruct Hw as [Hw1 Hw2]. apply Nat.eqb_eq in Hw1.
     exists s. auto.
   - destruct (ir_has_pds m); [right|left; reflexivity].
-    cbn [negb orb] in H5. apply andb_true_iff in H5. destruct H5 as [H5 H6].
+    apply orb_true_iff in H5. destruct H5 as [H5|H5]; [discriminate|].
+    apply andb_true_iff in H5. destruct H5 as [H5 H6].
     split; [reflexivity|]. split; [exact H5|].
     destruct (pds_to_de m) as [cs| | |]; try discriminate. exists cs. split; [reflexivity|].
     apply Nat.leb_le. exact H6.
@@ -1057,4 +1058,262 @@ Proof.
   - intros n v Hl. exact Hl.
   - intros n c _ _. reflexivity.
   - intros ents _ t v Hin. exfalso. exact (ir_no_pds_key m t v Hnp Hin).
+Qed.
+
+(* ====================================================================== messages with PDS keys *)
+
+(* ---------- tags are the 4-digit renderings of their numbers ---------- *)
+Lemma ir_digs_value : forall ds, Forall (fun d => (d < 10)%N) ds ->
+  digs (length ds) (Prim.value ds) = ds /\ (Prim.value ds < 10 ^ N.of_nat (length ds))%N.
+Proof.
+  induction ds as [|d l IH] using rev_ind; intros H.
+  - split; [reflexivity|]. cbn [length]. rewrite value_nil. change (N.of_nat 0) with 0%N.
+    rewrite N.pow_0_r. lia.
+  - apply Forall_app in H. destruct H as [Hl Hd]. inversion Hd as [|x y Hd' _]; subst.
+    destruct (IH Hl) as [IH1 IH2].
+    rewrite app_length. cbn [length]. rewrite Nat.add_1_r. rewrite value_app1.
+    assert (Hq : (Prim.value l = (Prim.value l * 10 + d) / 10)%N).
+    { apply (N.div_unique _ 10 _ d); lia. }
+    assert (Hr : (d = (Prim.value l * 10 + d) mod 10)%N).
+    { apply (N.mod_unique _ 10 (Prim.value l) d); lia. }
+    split.
+    + cbn [digs]. rewrite <- Hq, <- Hr, IH1. reflexivity.
+    + rewrite Nat2N.inj_succ, N.pow_succ_r'. lia.
+Qed.
+
+Lemma ir_tag4_num : forall t, length t = 4 -> forallb ascii_digit t = true ->
+  tag4 (num_of t) = t /\ (num_of t < 10000)%N.
+Proof.
+  intros t Hl Ha. destruct (ir_ascii_digits_dch t Ha) as [H1 H2].
+  destruct (ir_digs_value _ H2) as [H3 H4]. rewrite map_length, Hl in H3, H4.
+  unfold tag4, num_of. split.
+  - rewrite H3. symmetry. exact H1.
+  - rewrite pow10_4 in H4. exact H4.
+Qed.
+
+(* ---------- the PDS entries of a message ---------- *)
+Lemma ir_pds_entries_in : forall m t v, In (t, v) (pds_entries m) <-> In (KPDS t, v) m.
+Proof.
+  unfold pds_entries.
+  induction m as [|[k x] r IH]; intros t v; cbn [flat_map fst snd]; [tauto|].
+  rewrite in_app_iff, IH. cbn [In]. destruct k; cbn [In]; split; intros [H|H].
+  all: try (right; exact H).
+  all: try (exfalso; exact H).
+  all: try discriminate H.
+  - destruct H as [H|[]]. inversion H. left. reflexivity.
+  - inversion H. left. left. reflexivity.
+Qed.
+
+Lemma ir_pds_entries_nodup : forall m, nodup_keys m = true -> NoDup (map fst (pds_entries m)).
+Proof.
+  induction m as [|[k x] r IH]; intros Hn; [constructor|].
+  cbn [nodup_keys] in Hn. apply andb_true_iff in Hn. destruct Hn as [Hn1 Hn2].
+  apply negb_true_iff in Hn1. specialize (IH Hn2).
+  unfold pds_entries in *. cbn [flat_map fst snd]. destruct k; cbn [app]; try exact IH.
+  cbn [map fst]. constructor; [|exact IH].
+  intro Hin. apply in_map_iff in Hin. destruct Hin as [[t v] [Ht Hin]]. cbn [fst] in Ht. subst t.
+  apply (ir_pds_entries_in r tag v) in Hin.
+  assert (E : existsb (fun kv => key_eqb (fst kv) (KPDS tag)) r = true).
+  { apply existsb_exists. exists (KPDS tag, v). split; [exact Hin|]. apply ir_key_eqb_refl. }
+  congruence.
+Qed.
+
+(* ---------- list facts ---------- *)
+Lemma ir_nodup_app : forall {A} (a b : list A), NoDup (a ++ b) -> NoDup a /\ NoDup b.
+Proof.
+  induction a as [|x a IH]; intros b H; cbn [app] in H.
+  - split; [constructor|exact H].
+  - inversion H as [|y l Hx Hr]; subst. destruct (IH b Hr) as [Ha Hb]. split; [|exact Hb].
+    constructor; [|exact Ha]. intro C. apply Hx. apply in_or_app. left. exact C.
+Qed.
+
+Lemma ir_nodup_map_inj : forall {A B} (f : A -> B) l a b, NoDup (map f l) -> In a l -> In b l ->
+  f a = f b -> a = b.
+Proof.
+  induction l as [|x l IH]; intros a b Hn Ha Hb E; [destruct Ha|].
+  cbn [map] in Hn. inversion Hn as [|y l' Hx Hr]; subst.
+  destruct Ha as [Ha|Ha], Hb as [Hb|Hb].
+  - congruence.
+  - subst x. exfalso. apply Hx. rewrite E. apply in_map. exact Hb.
+  - subst x. exfalso. apply Hx. rewrite <- E. apply in_map. exact Ha.
+  - apply (IH a b Hr Ha Hb E).
+Qed.
+
+Lemma ir_nodup_concat : forall {A B} (f : A -> B) gs g, NoDup (map f (concat gs)) -> In g gs -> NoDup (map f g).
+Proof.
+  induction gs as [|g0 gs IH]; intros g Hn Hin; [destruct Hin|].
+  cbn [concat] in Hn. rewrite map_app in Hn. apply ir_nodup_app in Hn. destruct Hn as [H1 H2].
+  destruct Hin as [Hin|Hin]; [subst g0; exact H1|apply (IH g H2 Hin)].
+Qed.
+
+Lemma ir_firstn_in : forall {A} n (l : list A) x, In x (firstn n l) <-> exists i, i < n /\ nth_error l i = Some x.
+Proof.
+  induction n as [|n IH]; intros l x.
+  - cbn [firstn]. split; [intros []|intros [i [H _]]; lia].
+  - destruct l as [|y l]; cbn [firstn].
+    + split; [intros []|intros [i [_ H]]; destruct i; discriminate].
+    + cbn [In]. rewrite IH. split.
+      * intros [H|[i [H1 H2]]]; [exists 0; split; [lia|subst; reflexivity]|exists (S i); split; [lia|exact H2]].
+      * intros [[|i] [H1 H2]]; [left; inversion H2; reflexivity|right; exists i; split; [lia|exact H2]].
+Qed.
+
+(* ---------- a sorted permutation exists ---------- *)
+Lemma ir_insert_exists : forall (x : N * str) r, StronglySorted N.lt (map fst r) -> ~ In (fst x) (map fst r) ->
+  exists l, Permutation (x :: r) l /\ StronglySorted N.lt (map fst l).
+Proof.
+  intros x. induction r as [|y r IH]; intros Hs Hni.
+  - exists [x]. split; [apply Permutation_refl|]. cbn [map]. constructor; constructor.
+  - cbn [map] in Hs, Hni. inversion Hs as [|a l Hs' Hall]; subst.
+    destruct (N.lt_trichotomy (fst x) (fst y)) as [Hlt|[Heq|Hgt]].
+    + exists (x :: y :: r). split; [apply Permutation_refl|]. cbn [map]. constructor; [exact Hs|].
+      constructor; [exact Hlt|]. eapply Forall_impl; [|exact Hall]. intros a Ha. cbv beta in Ha. lia.
+    + exfalso. apply Hni. left. symmetry. exact Heq.
+    + destruct (IH Hs') as [l [Hp Hl]].
+      { intro C. apply Hni. right. exact C. }
+      exists (y :: l). split.
+      * eapply Permutation_trans; [apply perm_swap|]. apply perm_skip. exact Hp.
+      * cbn [map]. constructor; [exact Hl|].
+        apply (Permutation_Forall (Permutation_map fst Hp)). cbn [map]. constructor; [exact Hgt|exact Hall].
+Qed.
+
+Lemma ir_sort_exists : forall (l : list (N * str)), NoDup (map fst l) ->
+  exists l', Permutation l l' /\ StronglySorted N.lt (map fst l').
+Proof.
+  induction l as [|x r IH]; intros Hn.
+  - exists []. split; [constructor|constructor].
+  - cbn [map] in Hn. inversion Hn as [|a l Hx Hr]; subst.
+    destruct (IH Hr) as [r' [Hp Hs]].
+    destruct (ir_insert_exists x r' Hs) as [l [Hp2 Hs2]].
+    { intro C. apply Hx. apply (Permutation_in _ (Permutation_sym (Permutation_map fst Hp))). exact C. }
+    exists l. split; [|exact Hs2].
+    eapply Permutation_trans; [apply perm_skip; exact Hp|exact Hp2].
+Qed.
+
+Lemma ir_nodup_map_in : forall {A B} (f : A -> B) l,
+  (forall a b, In a l -> In b l -> f a = f b -> a = b) -> NoDup l -> NoDup (map f l).
+Proof.
+  induction l as [|x l IH]; intros Hinj Hn; [constructor|].
+  inversion Hn as [|y l' Hx Hr]; subst. cbn [map]. constructor.
+  - intro C. apply in_map_iff in C. destruct C as [z [Hz1 Hz2]].
+    assert (z = x) by (apply Hinj; [right; exact Hz2|left; reflexivity|exact Hz1]). subst z. contradiction.
+  - apply IH; [|exact Hr]. intros a b Ha Hb. apply Hinj; right; assumption.
+Qed.
+
+(* ---------- the packing plan of a message with PDS keys ---------- *)
+Definition ir_pds_num (e : str * value) : N * str :=
+  (num_of (fst e), match snd e with VStr s => s | _ => [] end).
+
+Definition ir_tv_ok (cd : codec) (tv : N * str) : Prop :=
+  (fst tv < 10000)%N /\ length (snd tv) <= 992 /\ encodable cd (snd tv) = true.
+
+Definition ir_kv (tv : N * str) : key * value := (KPDS (tag4 (fst tv)), VStr (snd tv)).
+
+Lemma ir_pds_plan : forall cfg cd m, nodup_keys m = true ->
+  (forall k v, In (k, v) m -> wf_entryb cfg cd true (k, v) = true) ->
+  exists pds groups,
+    NoDup (map fst pds) /\ Forall (ir_tv_ok cd) pds /\
+    (forall t v, In (KPDS t, v) m -> exists tv, In tv pds /\ t = tag4 (fst tv) /\ v = VStr (snd tv)) /\
+    concat groups = pds /\ pds_to_de m = Ok (map (flat_map sub_of) groups) /\
+    Forall (fun c => 1 <= length c <= 999) (map (flat_map sub_of) groups).
+Proof.
+  intros cfg cd m Hnd Hent.
+  assert (Hwfe : forall e, In e (pds_entries m) -> exists t s, e = (t, VStr s) /\ length t = 4 /\
+            forallb ascii_digit t = true /\ length s <= 992 /\ encodable cd s = true).
+  { intros [t v] Hin. apply ir_pds_entries_in in Hin. pose proof (Hent _ _ Hin) as Hw.
+    cbn [wf_entryb] in Hw. destruct v as [s| | |]; try discriminate.
+    apply andb_true_iff in Hw. destruct Hw as [Hw Hw4].
+    apply andb_true_iff in Hw. destruct Hw as [Hw Hw3].
+    apply andb_true_iff in Hw. destruct Hw as [Hw1 Hw2].
+    apply Nat.eqb_eq in Hw1. apply Nat.leb_le in Hw3. exists t, s. auto. }
+  set (raw := map ir_pds_num (pds_entries m)).
+  assert (Hraw : map pds_entry raw = pds_entries m).
+  { unfold raw. rewrite map_map. rewrite <- (map_id (pds_entries m)) at 2.
+    apply map_ext_in. intros e He. destruct (Hwfe e He) as [t [s [E [H1 [H2 _]]]]]. subst e.
+    unfold pds_entry, ir_pds_num. cbn [fst snd]. rewrite (proj1 (ir_tag4_num t H1 H2)). reflexivity. }
+  assert (Hrawok : Forall (ir_tv_ok cd) raw).
+  { unfold raw. rewrite Forall_map. apply Forall_forall. intros e He.
+    destruct (Hwfe e He) as [t [s [E [H1 [H2 [H3 H4]]]]]]. subst e.
+    unfold ir_tv_ok, ir_pds_num. cbn [fst snd]. split; [apply (ir_tag4_num t H1 H2)|]. auto. }
+  assert (Hrawnd : NoDup (map fst raw)).
+  { unfold raw. rewrite map_map.
+    replace (map (fun x => fst (ir_pds_num x)) (pds_entries m)) with (map num_of (map fst (pds_entries m)))
+      by (rewrite map_map; reflexivity).
+    apply ir_nodup_map_in; [|apply ir_pds_entries_nodup; exact Hnd].
+    intros a b Ha Hb E.
+    apply in_map_iff in Ha. destruct Ha as [ea [Ea Ha]]. apply in_map_iff in Hb. destruct Hb as [eb [Eb Hb]].
+    destruct (Hwfe ea Ha) as [ta [sa [Ea' [A1 [A2 _]]]]]. destruct (Hwfe eb Hb) as [tb [sb [Eb' [B1 [B2 _]]]]].
+    subst ea eb. cbn [fst] in Ea, Eb. subst ta tb.
+    rewrite <- (proj1 (ir_tag4_num a A1 A2)), <- (proj1 (ir_tag4_num b B1 B2)), E. reflexivity. }
+  destruct (ir_sort_exists raw Hrawnd) as [pds [Hperm Hsort]].
+  assert (Hpdsok : Forall (ir_tv_ok cd) pds) by (apply (Permutation_Forall Hperm); exact Hrawok).
+  assert (Hwfp : wf_pds pds).
+  { split; [exact Hsort|]. eapply Forall_impl; [|exact Hpdsok]. intros tv [H1 [H2 _]]. auto. }
+  assert (Hpe : Permutation (pds_entries m) (map pds_entry pds)).
+  { rewrite <- Hraw. apply Permutation_map. exact Hperm. }
+  destruct (c12_packing pds m Hwfp Hpe) as [cs [groups [Hcs [Hconcat [Hcseq [_ Hlen]]]]]].
+  subst cs. exists pds, groups.
+  split; [apply (Permutation_NoDup (Permutation_map fst Hperm) Hrawnd)|].
+  split; [exact Hpdsok|]. split; [|auto].
+  intros t v Hin. apply ir_pds_entries_in in Hin. apply (Permutation_in _ Hpe) in Hin.
+  apply in_map_iff in Hin. destruct Hin as [tv [E Hin]]. unfold pds_entry in E. inversion E; subst.
+  exists tv. auto.
+Qed.
+
+(* ---------- the assignment, by membership ---------- *)
+Lemma ir_assignment_in : forall m cs fields, length cs <= length fields -> NoDup fields ->
+  exists m1, assign_pds m cs fields = Ok m1 /\
+    (forall c, In c cs -> exists f, In f (firstn (length cs) fields) /\ lookup m1 (KDE f) = Some (VStr c)) /\
+    (forall f, In f (firstn (length cs) fields) -> exists c, In c cs /\ lookup m1 (KDE f) = Some (VStr c)) /\
+    (forall k, (forall f, In f (firstn (length cs) fields) -> k <> KDE f) -> lookup m1 k = lookup m k).
+Proof.
+  intros m cs fields Hl Hn. destruct (c12_assignment m cs fields Hl Hn) as [m1 [H0 [A1 A2]]].
+  exists m1. split; [exact H0|]. split; [|split].
+  - intros c Hc. apply In_nth_error in Hc. destruct Hc as [i Hi].
+    destruct (A1 i c Hi) as [f [Hf1 Hf2]]. exists f. split; [|exact Hf2].
+    apply ir_firstn_in. exists i. split; [|exact Hf1]. apply nth_error_Some. congruence.
+  - intros f Hf. apply ir_firstn_in in Hf. destruct Hf as [i [Hi1 Hi2]].
+    destruct (nth_error cs i) as [c|] eqn:Ec; [|apply nth_error_None in Ec; lia].
+    destruct (A1 i c Ec) as [f' [Hf1 Hf2]]. rewrite Hi2 in Hf1. inversion Hf1; subst f'.
+    exists c. split; [apply (nth_error_In _ _ Ec)|exact Hf2].
+  - intros k Hk. apply A2. intros i f Hi1 Hi2. apply Hk. apply ir_firstn_in. exists i. auto.
+Qed.
+
+(* ---------- carriers ---------- *)
+Lemma ir_proc_eqb_pds : forall p, proc_eqb p PPDS = true -> p = PPDS.
+Proof. intros p H. destruct p; try discriminate. reflexivity. Qed.
+
+Lemma ir_carrier_cfg : forall cfg f, carriers_okb cfg = true -> In f (pds_bits cfg) ->
+  2 <= f <= 127 /\ exists c, cfg_get cfg f = Some c /\ f_type c = LLLVAR /\ f_ptype c = PTStr /\ f_proc c = PPDS.
+Proof.
+  intros cfg f Hc Hin. unfold carriers_okb in Hc. rewrite forallb_forall in Hc. specialize (Hc f Hin).
+  unfold pds_bits in Hin. apply filter_In in Hin. destruct Hin as [_ Hp].
+  apply andb_true_iff in Hc. destruct Hc as [Hc H3].
+  apply andb_true_iff in Hc. destruct Hc as [H1 H2]. apply Nat.leb_le in H1, H2.
+  split; [lia|]. destruct (cfg_get cfg f) as [c|]; [|discriminate].
+  exists c. split; [reflexivity|]. apply ir_proc_eqb_pds in Hp.
+  destruct (f_type c); try discriminate. destruct (f_ptype c); try discriminate. auto.
+Qed.
+
+Lemma ir_in_pds_bits : forall cfg b c, cfg_get cfg b = Some c -> f_proc c = PPDS -> b < 200 -> In b (pds_bits cfg).
+Proof.
+  intros cfg b c Hc Hp Hb. unfold pds_bits. apply filter_In. split; [apply in_seq; lia|].
+  rewrite Hc, Hp. reflexivity.
+Qed.
+
+Lemma ir_encodable_sub : forall cd g, ir_digits_enc cd -> Forall (ir_tv_ok cd) g ->
+  encodable cd (flat_map sub_of g) = true.
+Proof.
+  intros cd g Hdig. induction g as [|tv g IH]; intros H; [reflexivity|].
+  inversion H as [|x l [_ [_ He]] Hr]; subst. cbn [flat_map]. rewrite encodable_app, (IH Hr), andb_true_r.
+  unfold sub_of, tag4. rewrite !encodable_app, He, andb_true_r.
+  rewrite !ir_encodable_digits by (try exact Hdig; apply digs_lt10). reflexivity.
+Qed.
+
+Lemma ir_chunk_wf : forall cd c chunk sub, f_type c = LLLVAR -> f_ptype c = PTStr -> f_proc c = PPDS ->
+  encodable cd chunk = true -> 1 <= length chunk <= 999 -> pds_to_dict chunk = Ok sub ->
+  wf_valb c cd (VStr chunk) = true.
+Proof.
+  intros cd c chunk sub Ht Hpt Hp He Hl Hs. unfold wf_valb. rewrite Hpt, Hp, He, Hs.
+  unfold len_okb. rewrite Ht. cbn [is_var vmax is_ok andb].
+  rewrite andb_true_r. apply andb_true_iff. split; apply Nat.leb_le; lia.
 Qed.
